@@ -148,6 +148,9 @@ func runSelftest(args []string) int {
 			// a must-fail mutation is decided by the units of the obligations it names: only those are generated and
 			// discharged (the whole property per mutation costs minutes for the package sweeps); -full turns this off
 			focus := ""
+			// the retry passes (longer limits for undecided obligations) only matter for must-pass mutations; for a
+			// must-fail one they would re-run every failing obligation with 3x and 6x the limit
+			o.noRetry = len(m.ExpectFail) > 0
 			if !*full && len(m.ExpectFail) > 0 {
 				var units []string
 				for _, want := range m.ExpectFail {
